@@ -11,6 +11,10 @@
 //	          indexes of arrays), unless i is the key of an enclosing `for i := range x` or the
 //	          variable of an enclosing `for …; i < len(x); …` over the textually same x and i is
 //	          not assigned in the loop body (counted in index_loop_bounded)
+//	          — the ranged x may also be the slice whose length the indexed slice was made with in
+//	          the same function (y := make([]T, len(x)), or the field F: make([]T, len(x)) of the
+//	          composite literal defining v for y = v.F, neither reassigned) — or the i / j of the
+//	          callback passed to sort.Slice(x, …) / sort.SliceStable(x, …)
 //	slice     x[a:b] with at least one bound that is not absent, `0` or `len(x)`; exempt (counted
 //	          in slice_loop_bounded) when every such bound is `i` or `i+1` for a bounding loop as above
 //	mapwrite  m[k] = v, m[k] op= v, m[k]++ where m is a map that is not a local variable all of
@@ -18,7 +22,8 @@
 //	rangeptr  for _, v := range xs with pointer elements where the body dereferences v (v.f, *v)
 //	ifacecmp  a == b / a != b where both operands have a non-error interface type and neither is nil
 //	          ("comparing uncomparable type" when both hold a slice / map / func)
-//	recursion functions on a cycle of the static call graph (see callgraph.go)
+//	recursion functions on a cycle of the static call graph (see callgraph.go), unless every call
+//	          inside the cycle descends structurally into the arguments (see descent.go)
 //
 // Entry = (file, func, kind, expr, guard, n): no line numbers, identical tuples are merged and
 // counted, so moving code does not change the table while removing a guard does.
@@ -87,18 +92,19 @@ type Op struct {
 }
 
 type extractor struct {
-	root       string
-	fset       *token.FileSet
-	pkgs       []*packages.Package
-	listed     map[string]bool // package path -> listed
-	astType    *types.TypeName
-	kindFields map[*types.Var]bool
-	ops        map[string]*Op
-	nfiles     int
-	loopIdx    int
-	loopSlice  int
-	bounded    []string // "file:line expr" of the loop-bounded index/slice expressions (JSON only)
-	graph      *callGraph
+	root          string
+	fset          *token.FileSet
+	pkgs          []*packages.Package
+	listed        map[string]bool // package path -> listed
+	astType       *types.TypeName
+	kindFields    map[*types.Var]bool
+	ops           map[string]*Op
+	nfiles        int
+	loopIdx       int
+	loopSlice     int
+	bounded       []string // "file:line expr" of the loop-bounded index/slice expressions (JSON only)
+	graph         *callGraph
+	recStructural []string // recursion groups whose every internal call descends structurally (descent.go)
 }
 
 func fail(format string, a ...any) {
